@@ -31,4 +31,16 @@ def sweep (strict : Bool) (grids : List α) (cf cg kloss : α) (steps : List (α
 def countHits (strict : Bool) (zg : α) (steps : List (α × α)) : Nat :=
   (steps.filter fun s => hits strict s.1 s.2 zg).length
 
+/-- the rule of the corrected code, comparisons only: the step from plane `a` to plane `b` counts the grid at `zg`
+iff `a < zg ≤ b` (`a` is the position the previous step ended at, not `b - dz`) -/
+def hitsP (a b zg : α) : Bool := decide (a < zg) && decide (zg ≤ b)
+
+/-- number of steps of the plane list that count the grid at `zg` -/
+def countHitsP (zg : α) : List α → Nat
+  | a :: b :: t => (if hitsP a b zg then 1 else 0) + countHitsP zg (b :: t)
+  | _ => 0
+
+/-- total number of grid losses accumulated over a plane list -/
+def gridLosses (grids : List α) (planes : List α) : Nat := (grids.map fun g => countHitsP g planes).sum
+
 end Dassh.Model.Pressure
